@@ -562,11 +562,41 @@ theorem C08_current :
     Gen.Cache.storeAddsAndRecords = true ∧
     Gen.Cache.removeDeletesKey = true ∧
     Gen.Cache.evictDeletesKey = true :=
-  ⟨rfl, fun _ => rfl, fun _ _ => rfl, rfl, fun _ _ => rfl, fun _ => rfl, fun _ _ => rfl, fun _ _ => rfl, rfl,
-   fun _ => rfl, fun _ _ => rfl, rfl, fun _ _ => rfl, fun _ => rfl,
-   rfl, fun _ _ => rfl, fun _ => rfl,
-   fun _ => rfl, rfl, fun _ _ => rfl, fun _ => rfl, fun _ _ => rfl, rfl,
-   fun _ _ => rfl, rfl, rfl, rfl, fun _ => rfl, fun _ => rfl, rfl, fun _ => rfl, fun _ => rfl, rfl, rfl, rfl⟩
+  ⟨rfl,
+   by gen_fact Gen.Cache.newPanics,
+   by gen_fact Gen.Cache.putRefuses,
+   by gen_fact Gen.Cache.putReplaceSteps,
+   by gen_fact Gen.Cache.replaceSize,
+   by gen_fact Gen.Cache.replaceCount,
+   by gen_fact Gen.Cache.putNewSize,
+   by gen_fact Gen.Cache.putEvicts,
+   by gen_fact Gen.Cache.putEvictSteps,
+   by gen_fact Gen.Cache.evictCount,
+   by gen_fact Gen.Cache.evictNewSize,
+   by gen_fact Gen.Cache.putStoresLast,
+   by gen_fact Gen.Cache.putSize,
+   by gen_fact Gen.Cache.putCount,
+   by gen_fact Gen.Cache.removeSteps,
+   by gen_fact Gen.Cache.removeSize,
+   by gen_fact Gen.Cache.removeCount,
+   by gen_fact Gen.Cache.clearContinues,
+   by gen_fact Gen.Cache.clearSteps,
+   by gen_fact Gen.Cache.clearSize,
+   by gen_fact Gen.Cache.clearCount,
+   by gen_fact Gen.Cache.clearInconsistent,
+   by gen_fact Gen.Cache.defaultSize,
+   by gen_fact Gen.Cache.prioLess,
+   by gen_fact Gen.Cache.updateRecordsPos,
+   by gen_fact Gen.Cache.checkTicks,
+   by gen_fact Gen.Cache.checkPeeksAtPos,
+   by gen_fact Gen.Cache.accessClock,
+   by gen_fact Gen.Cache.accessStamp,
+   by gen_fact Gen.Cache.accessRemovesThenAdds,
+   by gen_fact Gen.Cache.storeClock,
+   by gen_fact Gen.Cache.storeStamp,
+   by gen_fact Gen.Cache.storeAddsAndRecords,
+   by gen_fact Gen.Cache.removeDeletesKey,
+   by gen_fact Gen.Cache.evictDeletesKey⟩
 
 /-- the model's entry order is the regenerated comparison: `ltEntry a b` iff `a` was accessed earlier -/
 example : ltEntry ⟨3, 0, 0⟩ ⟨4, 1, 1⟩ = true ∧ ltEntry ⟨4, 0, 0⟩ ⟨4, 1, 1⟩ = false ∧ ltEntry ⟨5, 0, 0⟩ ⟨4, 1, 1⟩ = false := by
